@@ -324,6 +324,14 @@ func (e *Engine) getObjHeap(st *State, root types.Type, leaf int) Term {
 		return t
 	}
 	ls := e.lay.Leaves(root)
+	for _, pfx := range st.objHavoc {
+		if strings.HasPrefix(k, pfx) {
+			// a callee with `assigns objects(T)` ran before this heap was first looked at: not the entry heap
+			t := e.ctx.Fresh(k+"_afterobjects", ArrSort(SInt, ls[leaf].Sort))
+			st.objHeap[k] = t
+			return t
+		}
+	}
 	return e.ctx.Const(k+"_0", ArrSort(SInt, ls[leaf].Sort))
 }
 
